@@ -64,12 +64,13 @@ def unbinarize(nd, expect_label, problems, parent_label=None):
 
 
 def with_coindex(mt, function=False):
-    """function=True: PTB style, function and co-index (NP-SBJ-3, S-TPC=2-12)."""
+    """function=True: PTB style, function and co-index (NP-SBJ-3, S-TPC=2-12); function='marked': co-index followed by
+    the head marker (NP-3'), as the readers deliver labels of a file written with mark_heads_marking."""
     def rec(nd, path):
         if isinstance(nd, int):
             return nd
-        lab = nd[0] if path == () else nd[0] + (['-SBJ', '-TPC=2'][len(path) % 2] if function else '') \
-            + '-%d' % (len(path) + (2 if sum(path) % 2 else 11))
+        lab = nd[0] if path == () else nd[0] + (['-SBJ', '-TPC=2'][len(path) % 2] if function is True else '') \
+            + '-%d' % (len(path) + (2 if sum(path) % 2 else 11)) + ("'" if function == 'marked' else '')
         return (lab, nd[1], tuple(rec(k, path + (i,)) for i, k in enumerate(nd[2])))
     return model.MT(mt.sid, mt.toks, rec(mt.root, ()))
 
@@ -312,7 +313,7 @@ def run_chunk(chunk):
                 first = True
                 for choice in head_choices(sh):
                     base = assign_heads(sh, choice)
-                    for mt in (base, with_coindex(base), with_coindex(base, True)):
+                    for mt in (base, with_coindex(base), with_coindex(base, True), with_coindex(base, 'marked')):
                         j = mt.to_json()
                         for bare in (False, True):
                             idx += 1
